@@ -21,11 +21,15 @@ type cleanSnap struct {
 	at    time.Time
 	what  string
 	node  *RecvNode
+	// "<source>/<name>" -> hash of every file a part of which was on its way in
+	// when the pass began
+	receiving map[string]string
 }
 
 func (s *Sim) takeCleanSnap(n *RecvNode, what string) *cleanSnap {
 	s.restamp(n)
 	cs := &cleanSnap{tree: snapshotTree(n.stageDir(), nil), cmps: map[string]*sts.Partial{}, mtime: map[string]time.Time{}, at: time.Now(), what: what, node: n}
+	cs.receiving = s.namesBeingReceived()
 	filepath.Walk(n.stageDir(), func(p string, info os.FileInfo, err error) error {
 		if err != nil {
 			return nil
@@ -124,6 +128,16 @@ func (s *Sim) judgeCleanPass(cs *cleanSnap, after map[string]treeEntry, minAge t
 						// Recover removes those; the cleaner doing so is still only fine if delivered
 					}
 				}
+			}
+			if rh, ok := cs.receiving[rel]; ok && ext == ".part" && hash == "" && !s.relDelivered(n, rel, rh) {
+				// no companion yet (it is written when the first part has been
+				// taken in), an earlier version of the name delivered, the file
+				// old by its time stamp: the cleaner takes it for a left-over of
+				// the delivered version, while it is what a request that is being
+				// served right now writes into
+				s.violate("C20", "cleaned-partial-of-file-being-received", "%s removed %s, which has no companion yet, while a part of version %s of it was being received; that version has not been delivered", cs.what, k, short(rh))
+				s.c20Explain(rel, rh)
+				continue
 			}
 			if s.relDelivered(n, rel, hash) {
 				continue
